@@ -76,13 +76,15 @@ PROPS = {
                   r'^IppHeader::to_bytes$'],
         'kani': ['tables::table_value_tag', 'tables::table_delimiter_tag', 'tables::table_tag_none_outside'] + _K_RD_PLAIN,
         'assumptions': [_A_STREAM, _A_BYTES, _A_UTF8, _A_LOG, _A_W8, _A_TERM, _A_U16],
-        'uncovered': ['stack exhaustion on deeply nested input (no stack model in Verus or Kani)',
+        'uncovered': ['stack depth has no model in Verus or Kani: the "never overflow the stack" clause is explored by the bounded checks '
+                      'c02_stack_* only (child processes, nesting 2000 / 40000 / 60000), which exhibit four KNOWN FINDINGS on the unchanged tree '
+                      '(drop, to_bytes, Display, Clone of a deeply nested value abort the process)',
                       'Display / derived Clone / Drop of the returned value (format machinery and derive output are outside both tools); '
                       're-encoding IS covered: the parser state invariant `sizes` (every held value satisfies the encoder\'s only '
                       'precondition, no usize overflow of string-length sums) is proved for every method and both drive loops, parse / '
                       'parse_parts return groups satisfying groups_sizes, and IppAttributes::to_bytes / IppRequestResponse::to_bytes are '
                       'proved panic-free under exactly that precondition'],
-        'bounded': ['c02'],
+        'bounded': ['c02', 'c02_stack_parse', 'c02_stack_traverse', 'c02_stack_drop', 'c02_stack_encode', 'c02_stack_display', 'c02_stack_clone'],
         'design_ref': '§4 C02',
     },
     'C03': {
